@@ -35,7 +35,7 @@ def main() -> int:
             if "FALSE-ALARM" in rest:
                 bad.append(line.strip())
         elif kind == "undecided":
-            if "PASSED=" in rest:
+            if "PASSED=" in rest and any(p in mut["props"] for p in props):
                 bad.append(line.strip())
         else:
             for p in props:
